@@ -130,7 +130,9 @@ static enum websocket_callback_return private_decompress(struct websocket *s, ui
 		log_err("inflate in error: malloc");
 		return WS_ERROR;
 	}
-	memcpy(in, msg, length);
+	if (length > 0) {
+		memcpy(in, msg, length);
+	}
 	in[length] = 0x00;
 	in[length + 1] = 0x00;
 	in[length + 2] = 0xFF;
@@ -138,10 +140,14 @@ static enum websocket_callback_return private_decompress(struct websocket *s, ui
 	strm->next_in = in;
 
 	size_t size_out = 20 * length;
+	if (size_out < 64) {
+		size_out = 64;
+	}
 	strm->avail_out = size_out;
 	*free_ptr = malloc(size_out);
 	if (*free_ptr == NULL) {
 		log_err("inflate out error: malloc");
+		free(in);
 		return WS_ERROR;
 	}
 	uint8_t *out = *free_ptr;
@@ -150,11 +156,15 @@ static enum websocket_callback_return private_decompress(struct websocket *s, ui
 		if (strm->avail_out == 0) {
 			strm->avail_out += size_out;
 			size_out *= 2;
-			*free_ptr = realloc(*free_ptr, size_out);
-			if (*free_ptr == NULL) {
+			uint8_t *grown = realloc(*free_ptr, size_out);
+			if (grown == NULL) {
 				log_err("inflate out error: realloc");
+				free(*free_ptr);
+				*free_ptr = NULL;
+				free(in);
 				return WS_ERROR;
 			}
+			*free_ptr = grown;
 			out = *free_ptr;
 			strm->next_out = out + size_out / 2;
 		}
@@ -167,12 +177,19 @@ static enum websocket_callback_return private_decompress(struct websocket *s, ui
 			log_err("inflate error:");
 			print_converted_ret(ret);
 			inflateEnd(strm);
+			free(*free_ptr);
+			*free_ptr = NULL;
+			free(in);
+			strm->avail_in = 0;
 			return WS_ERROR;
 		}
 	}while(strm->avail_out == 0);
 	free(in);
 	if (strm->avail_in != 0) {
 		log_err("Shit happens! Not all data is decompressed");
+		free(*free_ptr);
+		*free_ptr = NULL;
+		strm->avail_in = 0;
 		return WS_ERROR;
 	}
 	*have = size_out - strm->avail_out;
@@ -216,7 +233,10 @@ enum websocket_callback_return text_frame_received_comp(bool is_compressed, stru
 		memmove(strm->next_in, strm->next_in + 4, sumLen);
 
 		ret = private_decompress(s, strm->next_in, sumLen, &free_ptr, &have);
-		if (ret == WS_ERROR) return ret;
+		if (ret == WS_ERROR) {
+			free(in_ptr);
+			return ret;
+		}
 		ret = text_frame_received(s,(char *) free_ptr, have, is_last_frame);
 		free(in_ptr);
 		free(free_ptr);
@@ -262,7 +282,10 @@ enum websocket_callback_return binary_frame_received_comp(bool is_compressed, st
 		size_t sumLen = read_int_from_array(strm->next_in) - strm->avail_in - 4;
 		memmove(strm->next_in, strm->next_in + 4, sumLen);
 		ret = private_decompress(s, strm->next_in, sumLen, &free_ptr, &have);
-		if (ret == WS_ERROR) return ret;
+		if (ret == WS_ERROR) {
+			free(in_ptr);
+			return ret;
+		}
 		ret = binary_frame_received(s, free_ptr, have, is_last_frame);
 		free(in_ptr);
 		free(free_ptr);
